@@ -337,6 +337,17 @@ func genPokeCases(r *Rng, n int) {
 			}
 		}
 		vs := append(pokeV1(item), pokeV2(item)...)
+		// the table definition: with and without a range key and a local index, every projection type
+		ptype := pick(cr, []string{"ALL", "KEYS_ONLY", "INCLUDE"})
+		nonKey := []string{}
+		if ptype == "INCLUDE" {
+			for j := 0; j < 1+cr.Intn(3); j++ {
+				nonKey = append(nonKey, fmt.Sprintf("nk%d", j))
+			}
+		}
+		wr := cr.Chance(50)
+		vs = append(vs, pokeMetaV1(wr, ptype, nonKey)...)
+		vs = append(vs, pokeMetaV2(wr, ptype, nonKey)...)
 		if vs == nil {
 			vs = []pokeViolation{}
 		}
